@@ -33,7 +33,7 @@ RULE = (
 )
 BOUNDS = {
     "quick": "all TLE tuples with <= 4 fields deviating from the ISS base tuple x 7 date offsets (+ one timedelta call per TLE)",
-    "thorough": "the full product of the 8 field alphabets (8x6x8x5x3x3x3x5 TLEs) x 7 date offsets",
+    "thorough": "the full product of the 8 field alphabets (8x7x8x5x3x3x3x5 = 302400 TLEs) x 7 date offsets",
 }
 ASSUMPTIONS = [
     "oracle = sgp4.api.Satrec accelerated C++ build, WGS-72, opsmode 'i', driven by exact minutes since epoch",
@@ -50,7 +50,7 @@ NOT_COVERED = (
 # alphabets (index 0 = base value, the ISS element set 25544 of 2016-05-03)
 
 A_I = [51.6, 0.01, 28.5, 63.4, 90.0, 98.7, 144.0, 179.9]
-A_E = [1e-3, 0.0, 5e-5, 0.1, 0.7, 0.9]
+A_E = [1e-3, 0.0, 5e-5, 0.1, 0.45, 0.7, 0.9]  # 0.45: most eccentric orbit of the full near-Earth regime (n = 6.5)
 A_N = [15.5, 0.5, 1.0027, 2.0, 6.3, 6.5, 12.0, 16.5]
 A_B = [1e-4, 0.0, 1e-5, -1e-5, 1e-2]
 A_W = [87.7267, 0.0, 270.0]
